@@ -194,7 +194,9 @@ def run(mod, pid, a, seed, workdir, t0):
         if f["what"] not in seen_kf:
             seen_kf.add(f["what"])
             print("KNOWN-FINDING: property=%s %s" % (pid, f["what"]))
-    os.makedirs(os.path.join(HERE, "replays"), exist_ok=True)
+    # VF_OUT: maintenance only (vf/seedtest2.sh runs a check against a scratch checkout without touching the committed evidence)
+    OUT = os.environ.get("VF_OUT") or HERE
+    os.makedirs(os.path.join(OUT, "replays"), exist_ok=True)
     if len(violations) > 25:
         print('(%d violations; writing replay files for the first 25)' % len(violations))
     for rec, ob in violations[:25]:
@@ -206,7 +208,7 @@ def run(mod, pid, a, seed, workdir, t0):
             "preamble": spec["preamble"] if ob else "", "src": ob.src if ob else "",
         }
         h = hashlib.sha1(json.dumps(body, sort_keys=True, default=str).encode()).hexdigest()[:10]
-        path = os.path.join(HERE, "replays", "%s-%s.json" % (pid, h))
+        path = os.path.join(OUT, "replays", "%s-%s.json" % (pid, h))
         with open(path, "w") as f:
             json.dump(body, f, indent=1, default=str)
         print("VIOLATION property=%s replay=%s" % (pid, path))
@@ -267,8 +269,8 @@ def run(mod, pid, a, seed, workdir, t0):
         "violations": len(violations),
     }
     if not a.only:
-        os.makedirs(os.path.join(HERE, "evidence"), exist_ok=True)
-        with open(os.path.join(HERE, "evidence", pid + ".json"), "w") as f:
+        os.makedirs(os.path.join(OUT, "evidence"), exist_ok=True)
+        with open(os.path.join(OUT, "evidence", pid + ".json"), "w") as f:
             json.dump(ev, f, indent=1, default=str)
     print("%s tier=%s obligations=%d discharged=%d inconclusive=%d known=%d violations=%d harness_err=%d "
           "paths=%d queries=%d solver_s=%.1f twins=%d/%d wall=%.1fs" % (
